@@ -18,6 +18,8 @@ import (
 	"fmt"
 	"os"
 	"path/filepath"
+	"runtime"
+	"strings"
 	"testing"
 
 	"github.com/ontio/ontology-crypto/keypair"
@@ -41,6 +43,7 @@ type ihItem struct {
 	Hex     string `json:"hex"`
 	PreExec bool   `json:"preexec"`
 	Legacy  bool   `json:"legacy"`
+	Cuts    []int  `json:"cuts"` // byte offsets where the model's steps end (to locate the fatal step of a panicking script)
 }
 
 type ihRes struct {
@@ -52,6 +55,10 @@ type ihRes struct {
 	Result string `json:"result,omitempty"`
 	Notify int    `json:"notify"`
 	Code   string `json:"code"`
+	// after a panic: the shortest prefix (number of steps) that panics as well, and whether that prefix survives when
+	// the item it leaves on the stack is dropped (pre-execution converts the result, a consumer of its own)
+	FatalK       int  `json:"fatal_k,omitempty"`
+	DropSurvives bool `json:"drop_survives,omitempty"`
 }
 
 type ihWorld struct {
@@ -86,6 +93,28 @@ func (w *ihWorld) makeBlock(txs []*types.Transaction) *types.Block {
 	hdr.Bookkeepers = []keypair.PublicKey{w.acc.PublicKey}
 	hdr.SigData = [][]byte{sig}
 	return blk
+}
+
+// ihPanicSite: the innermost frames of the repository's code on the panicking stack
+func ihPanicSite() string {
+	pcs := make([]uintptr, 40)
+	n := runtime.Callers(3, pcs)
+	frames := runtime.CallersFrames(pcs[:n])
+	var out []string
+	for {
+		fr, more := frames.Next()
+		if strings.Contains(fr.Function, "ontio/ontology") && !strings.Contains(fr.Function, "TestVerif") {
+			fn := fr.Function[strings.LastIndex(fr.Function, "/")+1:]
+			out = append(out, fmt.Sprintf("%s (%s:%d)", fn, filepath.Base(fr.File), fr.Line))
+			if len(out) == 3 {
+				break
+			}
+		}
+		if !more {
+			break
+		}
+	}
+	return strings.Join(out, " <- ")
 }
 
 func ihPlaceholder(fill byte, n int, tag byte) []byte {
@@ -161,6 +190,64 @@ func TestVerifInterop(t *testing.T) {
 		gasTable[k.(string)] = v.(uint64)
 		return true
 	})
+	run := func(id int, code []byte, preExec bool) (r ihRes) {
+		mtx := &types.MutableTransaction{TxType: types.InvokeNeo, Nonce: uint32(id), GasPrice: 0, GasLimit: 100000000,
+			Payload: &payload.InvokeCode{Code: code}}
+		tx, err := mtx.IntoImmutable()
+		vhMust(err)
+		r = ihRes{Id: id, Op: "run", Out: "ok", Code: hex.EncodeToString(code)}
+		func() {
+			// A Go panic on these paths is what kills the node (nothing recovers between the p2p / RPC entry and here).
+			// It is caught HERE, outside the code under test, only so that one child process can report many of them;
+			// fatal errors (stack overflow, out of memory) still end the child and are seen by the parent.
+			defer func() {
+				if x := recover(); x != nil {
+					r.Out = "crash"
+					r.Ok = false
+					r.Err = fmt.Sprintf("panic: %v at %s", x, ihPanicSite())
+				}
+			}()
+			if preExec {
+				pres, err := ledger.PreExecuteContract(tx)
+				if err != nil {
+					r.Err = err.Error()
+				} else {
+					r.Ok = true
+					rb, _ := json.Marshal(pres.Result)
+					r.Result = string(rb)
+					r.Notify = len(pres.Notify)
+				}
+			} else {
+				blk := w.makeBlock([]*types.Transaction{tx})
+				eres, err := ledger.ExecuteBlock(blk)
+				if err != nil {
+					r.Err = "ExecuteBlock: " + err.Error()
+				} else if len(eres.Notify) != 1 {
+					r.Err = fmt.Sprintf("ExecuteBlock: %d notify records", len(eres.Notify))
+				} else {
+					r.Ok = eres.Notify[0].State == event.CONTRACT_STATE_SUCCESS
+					r.Notify = len(eres.Notify[0].Notify)
+					if !r.Ok {
+						// the block path only logs the error text: repeat the invocation the way HandleInvokeTransaction does
+						sc := smartcontract.SmartContract{
+							Config:   &smartcontract.Config{Time: blk.Header.Timestamp, Height: blk.Header.Height, Tx: tx, BlockHash: blk.Hash()},
+							CacheDB:  ledger.GetCacheDB(),
+							Store:    ledger,
+							GasTable: gasTable,
+							Gas:      tx.GasLimit,
+						}
+						engine, _ := sc.NewExecuteEngine(code, tx.TxType)
+						if _, err := engine.Invoke(); err != nil {
+							r.Err = err.Error()
+						} else {
+							r.Err = "(state 0 in the block, no error in the repeated invocation)"
+						}
+					}
+				}
+			}
+		}()
+		return r
+	}
 	for _, it := range in.Items {
 		fmt.Fprintf(f, "{\"start\":%d,\"op\":\"run\"}\n", it.Id)
 		code, err := hex.DecodeString(it.Hex)
@@ -175,46 +262,21 @@ func TestVerifInterop(t *testing.T) {
 		} else {
 			config.DefConfig.P2PNode.NetworkId = config.NETWORK_ID_SOLO_NET
 		}
-		mtx := &types.MutableTransaction{TxType: types.InvokeNeo, Nonce: uint32(it.Id), GasPrice: 0, GasLimit: 100000000,
-			Payload: &payload.InvokeCode{Code: code}}
-		tx, err := mtx.IntoImmutable()
-		vhMust(err)
-		r := ihRes{Id: it.Id, Op: "run", Out: "ok", Code: hex.EncodeToString(code)}
-		if it.PreExec {
-			pres, err := ledger.PreExecuteContract(tx)
-			if err != nil {
-				r.Err = err.Error()
-			} else {
-				r.Ok = true
-				rb, _ := json.Marshal(pres.Result)
-				r.Result = string(rb)
-				r.Notify = len(pres.Notify)
-			}
-		} else {
-			blk := w.makeBlock([]*types.Transaction{tx})
-			eres, err := ledger.ExecuteBlock(blk)
-			if err != nil {
-				r.Err = "ExecuteBlock: " + err.Error()
-			} else if len(eres.Notify) != 1 {
-				r.Err = fmt.Sprintf("ExecuteBlock: %d notify records", len(eres.Notify))
-			} else {
-				r.Ok = eres.Notify[0].State == event.CONTRACT_STATE_SUCCESS
-				r.Notify = len(eres.Notify[0].Notify)
-				if !r.Ok {
-					// the block path only logs the error text: repeat the invocation the way HandleInvokeTransaction does
-					sc := smartcontract.SmartContract{
-						Config:   &smartcontract.Config{Time: blk.Header.Timestamp, Height: blk.Header.Height, Tx: tx, BlockHash: blk.Hash()},
-						CacheDB:  ledger.GetCacheDB(),
-						Store:    ledger,
-						GasTable: gasTable,
-						Gas:      tx.GasLimit,
+		r := run(it.Id, code, it.PreExec)
+		if r.Out == "crash" {
+			r.FatalK = len(it.Cuts)
+			for k, cut := range it.Cuts {
+				if cut <= 0 || cut > len(code) {
+					continue
+				}
+				if p := run(it.Id, code[:cut], it.PreExec); p.Out == "crash" {
+					r.FatalK = k + 1
+					r.Err = p.Err
+					if it.PreExec {
+						d := run(it.Id, append(append([]byte{}, code[:cut]...), 0x75), it.PreExec) // DROP
+						r.DropSurvives = d.Out != "crash"
 					}
-					engine, _ := sc.NewExecuteEngine(code, tx.TxType)
-					if _, err := engine.Invoke(); err != nil {
-						r.Err = err.Error()
-					} else {
-						r.Err = "(state 0 in the block, no error in the repeated invocation)"
-					}
+					break
 				}
 			}
 		}
